@@ -168,7 +168,7 @@ func c16S3(a vh.Args, o *vh.Oracle, r *vh.Result, c *c16Case) error {
 	}
 	nontriv := false
 	for _, k := range c.Keys {
-		if id, ok := canon(k); ok && !inSet(c.Keep, id) {
+		if id, ok := canon(k); ok && !lsInSet(c.Keep, id) {
 			nontriv = true
 		}
 	}
@@ -183,7 +183,7 @@ func c16S3(a vh.Args, o *vh.Oracle, r *vh.Result, c *c16Case) error {
 	}
 	for _, k := range c.Keys {
 		if afterSet[k] {
-			if id, ok := canon(k); ok && !inSet(c.Keep, id) && res == "nil" {
+			if id, ok := canon(k); ok && !lsInSet(c.Keep, id) && res == "nil" {
 				fail("s3prune/leaves-unreferenced", "unreferenced chunk object left: "+k)
 			}
 			continue
@@ -192,12 +192,12 @@ func c16S3(a vh.Args, o *vh.Oracle, r *vh.Result, c *c16Case) error {
 		switch {
 		case !ok:
 			fail("s3prune/removes-non-chunk", "removed an object that is not a canonical own-format chunk: "+k)
-		case inSet(c.Keep, id):
+		case lsInSet(c.Keep, id):
 			fail("s3prune/removes-referenced", "removed a referenced chunk: "+k)
 		}
 	}
 	for _, k := range after {
-		if !inSet(c.Keys, k) {
+		if !lsInSet(c.Keys, k) {
 			fail("s3prune/creates-object", "object appeared: "+k)
 		}
 	}
@@ -208,9 +208,9 @@ func c16S3(a vh.Args, o *vh.Oracle, r *vh.Result, c *c16Case) error {
 	sorted := append([]string{}, c.Keys...)
 	sort.Strings(sorted)
 	for _, k := range sorted {
-		hk = append(hk, hx([]byte(k)))
+		hk = append(hk, lsHx([]byte(k)))
 	}
-	ans, err := o.Call("c16.s3prune", hx([]byte(c.Prefix)), b01(c.Unc), strings.Join(c.Keep, ","), strings.Join(hk, ","))
+	ans, err := o.Call("c16.s3prune", lsHx([]byte(c.Prefix)), lsB01(c.Unc), strings.Join(c.Keep, ","), strings.Join(hk, ","))
 	if err != nil {
 		return err
 	}
@@ -218,7 +218,7 @@ func c16S3(a vh.Args, o *vh.Oracle, r *vh.Result, c *c16Case) error {
 	var mk []string
 	if ans != "-" {
 		for _, h := range strings.Split(ans, ",") {
-			mk = append(mk, string(unhx(h)))
+			mk = append(mk, string(lsUnhx(h)))
 		}
 	}
 	sort.Strings(mk)
@@ -240,7 +240,7 @@ func c16S3All(a vh.Args, o *vh.Oracle, r *vh.Result, rng *vh.Rand) error {
 		k := 2 + rng.Intn(5)
 		var ids []string
 		add := func(key, f string) {
-			if !inSet(c.Keys, key) {
+			if !lsInSet(c.Keys, key) {
 				c.Keys = append(c.Keys, key)
 				feat[f] = true
 			}
@@ -283,7 +283,7 @@ func c16S3All(a vh.Args, o *vh.Oracle, r *vh.Result, rng *vh.Rand) error {
 			}
 		}
 		c.Keep, c.KeepTag = c16Keep(rng, ids)
-		c.Feat = feats(feat)
+		c.Feat = lsFeats(feat)
 		if i < 2 {
 			r.Sample(map[string]interface{}{"kind": "s3prune", "prefix": c.Prefix, "unc": c.Unc, "keys": len(c.Keys), "features": c.Feat})
 		}
